@@ -22,12 +22,11 @@ files and the upload record):
 | `check`     | the four checksum comparisons (`BadDigest`)                                            |
 | `mkdirs`    | `done()`, first await: `create_dir_all(dest.parent())` — fails when a parent is a plain file; `clean_tmp` is still `true` |
 | `rename`    | `done()`, second await: `fs::rename(tmp, dest)` — POSIX-atomic; fails when `dest` is a directory; only AFTER it succeeded `clean_tmp = false` |
-| `moveMeta`  | `complete_multipart_upload`, after the rename: `load_metadata(.., Some(id))` → `save_metadata(.., None)`, `delete_metadata(.., Some(id))` |
-| `dropPart`  | `complete_multipart_upload`, after the metadata: `remove_file(part file)`, one per listed part          |
+| `dropPart`  | `complete_multipart_upload`, after the side files: `remove_file(part file)`, one per listed part        |
 | `consume`   | `complete_multipart_upload`, last: `delete_upload_id` (the upload record is removed)                    |
-| `saveMeta`  | `save_metadata` (`fs::write`, not atomic, after the rename) — request with metadata        |
-| `dropMeta`  | request without metadata: `get_metadata_path` + `remove_file` of a metadata file left by the previous object (after the rename; fails if that path is a directory) |
-| `saveInfo`  | `save_internal_info` (`fs::write`, after the rename)                                   |
+| `saveMeta`  | `save_metadata` (`fs::write`, not atomic, after the rename) — request (`complete_multipart_upload`: upload, then also `delete_metadata(.., Some(id))`) with metadata |
+| `dropMeta`  | request / upload without metadata: `get_metadata_path` + `remove_file` of a metadata file left by the previous object (after the rename; fails if that path is a directory; `complete_multipart_upload`: since cf67827) |
+| `saveInfo`  | `save_internal_info` (`fs::write`, after the rename; `complete_multipart_upload`: an empty record, since cf67827) |
 
 An error return and a dropped future both run `Drop for FileWriter`: the temporary file is removed iff a
 `FileWriter` with `clean_tmp = true` exists (`owned`).
@@ -96,7 +95,6 @@ inductive Step where
   | probe (p : Part)
   | sizes (ok : Bool)
   | consume
-  | moveMeta (uploadHasMeta : Bool) (fails : Bool)
   | dropPart
   | create
   | adopt
@@ -117,8 +115,6 @@ def exec (s : St) : Step → Except (Code × St) St
   | .sizes ok => if ok then .ok s else .error (.entityTooSmall, s)
   | .consume => .ok { s with uploadRec := false }
   | .dropPart => .ok { s with partsGone := s.partsGone + 1 }
-  | .moveMeta has fails =>
-    if !has then .ok s else if fails then .error (.internalError, s) else .ok { s with mdata := .new }
   | .create => .ok { s with tmp := true }
   | .adopt => .ok { s with owned := true }
   | .frame (.ok b) => .ok { s with acc := s.acc ++ b, pulled := s.pulled + 1 }
@@ -183,9 +179,11 @@ def putObjectProg (c : Cfg) : List Step :=
 def uploadPartProg (c : Cfg) : List Step :=
   [.create, .adopt] ++ c.frames.map .frame ++ [.flush, .mkdirs c.mkdirsFails, .rename c.renameFails]
 
-/-- what follows the rename in `complete_multipart_upload`: the metadata, the part files, the upload record -/
+/-- what follows the rename in `complete_multipart_upload`: the metadata (the upload's, or none), the checksum record, the
+    part files, the upload record -/
 def completePost (c : Cfg) : List Step :=
-  .moveMeta c.hasMeta c.metaFails :: (c.parts.map fun _ => Step.dropPart) ++ [.consume]
+  (if c.hasMeta then Step.saveMeta c.metaFails else .dropMeta c.metaFails) :: .saveInfo c.infoFails ::
+    (c.parts.map fun _ => Step.dropPart) ++ [.consume]
 
 def completeProg (c : Cfg) : List Step :=
   c.parts.map .probe ++ .sizes (c.parts.all Part.fine) :: .create :: .adopt ::
